@@ -2,6 +2,7 @@ package values
 
 import (
 	"fmt"
+	"math"
 	"reflect"
 	"strings"
 
@@ -103,10 +104,26 @@ func (v wrapperValue) PropertyValue(Value) Value { return nilValue }
 func (v wrapperValue) Test() bool                { return v.value != nil && v.value != false }
 
 func (v wrapperValue) Int() int {
-	if n, ok := v.value.(int); ok {
+	if n, ok := intOf(v.value); ok {
 		return n
 	}
 	panic(conversionError("", v.value, reflect.TypeOf(1)))
+}
+
+// intOf returns the value of an integer of any width or signedness, if it fits an int.
+func intOf(value any) (int, bool) {
+	rv := reflect.ValueOf(value)
+	switch {
+	case !rv.IsValid():
+		return 0, false
+	case rv.CanInt():
+		n := rv.Int()
+		return int(n), int64(int(n)) == n
+	case rv.CanUint():
+		u := rv.Uint()
+		return int(u), u <= math.MaxInt
+	}
+	return 0, false
 }
 
 // interned values
